@@ -934,3 +934,55 @@ Proof.
   split; [exact (C05_reachable_proof _ _ _ _ ex_s0_ok)|].
   split; vm_compute; reflexivity.
 Qed.
+
+(* ------------------------------------------------------------------ *)
+(* Host.HuntStage is an exported field the APPLICATION writes.  The invariant does not depend on it: any re-valuation of
+   the stages of a consistent state is consistent (so is the state after the harness op H, [upd_host k (set_hstage st)]) *)
+Definition restage (f : ip -> N) (s : state) : state :=
+  set_hosts (map (fun e => (fst e, set_hstage (f (fst e)) (snd e))) (hosts s)) s.
+
+Lemma restage_in f s k h' : In (k, h') (hosts (restage f s)) <->
+  exists h, In (k, h) (hosts s) /\ h' = set_hstage (f k) h.
+Proof.
+  unfold restage. cbn [hosts set_hosts]. rewrite in_map_iff. split.
+  - intros ([k0 h0] & E & I). cbn [fst snd] in E. inversion E; subst. exists h0. auto.
+  - intros (h & I & ->). exists (k, h). auto.
+Qed.
+
+Theorem inv_restage f s : Inv s -> Inv (restage f s).
+Proof.
+  intros [K O HM L LO M ON C].
+  assert (KS : map fst (hosts (restage f s)) = map fst (hosts s)).
+  { unfold restage. cbn [hosts set_hosts]. rewrite map_map. reflexivity. }
+  assert (MS : macs (restage f s) = macs s) by reflexivity.
+  constructor; rewrite ?MS.
+  - rewrite KS. exact K.
+  - intros k h' I. apply restage_in in I. destruct I as (h & I & ->). cbn [h_ip set_hstage]. apply (O k h I).
+  - intros k h' I. apply restage_in in I. destruct I as (h & I & ->). cbn [h_mac set_hstage]. apply (HM k h I).
+  - intros e k Ie Ik. destruct (L e k Ie Ik) as (h & I & E). exists (set_hstage (f k) h). split; [|exact E].
+    apply restage_in. exists h. auto.
+  - exact LO.
+  - exact M.
+  - intros k h' e I. apply restage_in in I. destruct I as (h & I & ->). cbn [h_online h_mac set_hstage]. apply (ON k h e I).
+  - rewrite C. unfold restage. cbn [hosts set_hosts]. rewrite map_length. reflexivity.
+Qed.
+
+Lemma upd_host_stage_restage k st s : NoDup (map fst (hosts s)) ->
+  upd_host k (set_hstage st) s = restage (fun x => if ip_eqb x k then st else match hlookup x (hosts s) with Some h => h_stage h | None => 1 end) s.
+Proof.
+  intros ND. unfold upd_host, restage. f_equal. unfold hupd.
+  induction (hosts s) as [|[k0 h0] r IH]; [reflexivity|].
+  cbn [map fst snd] in *. inversion ND as [|? ? NI ND']; subst.
+  cbn [hlookup]. rewrite ip_eqb_refl.
+  assert (T : map (fun e : ip * host => if ip_eqb (fst e) k then (fst e, set_hstage st (snd e)) else e) r =
+              map (fun e : ip * host => (fst e, set_hstage (if ip_eqb (fst e) k then st else match (if ip_eqb k0 (fst e) then Some h0 else hlookup (fst e) r) with Some h => h_stage h | None => 1 end) (snd e))) r).
+  { rewrite (IH ND'). apply map_ext_in. intros [k1 h1] I1. cbn [fst snd].
+    destruct (ip_eqb k1 k); [reflexivity|].
+    destruct (ip_eqb k0 k1) eqn:E; [|reflexivity]. ipeq. subst k1. exfalso. apply NI. apply in_map_iff. exists (k0, h1). auto. }
+  destruct (ip_eqb k0 k) eqn:E0.
+  - f_equal. exact T.
+  - f_equal; [|exact T]. destruct h0; reflexivity.
+Qed.
+
+Theorem inv_set_stage k st s : Inv s -> Inv (upd_host k (set_hstage st) s).
+Proof. intros I. rewrite (upd_host_stage_restage k st s (inv_keys s I)). apply inv_restage. exact I. Qed.
